@@ -57,7 +57,7 @@ CHECKS = {
     "C19": dict(level="exploration", engine="fakeredis cluster role",
         technique="runtime monitor: globally ordered per-node effect logs of a multi-node cluster double (routing by independent HASH_SLOT, MIGRATING/IMPORTING/ASK/MOVED/TRYAGAIN semantics) under scripted migration schedules; per-key segment oracle + resume-position clause",
         text="Real RedisOutput with a cluster client against 3-5 node doubles; schedules: none, MOVED between/mid batch, ASK windows with existing/missing keys, back-and-forth, node added; "
-             "blocking/pipelined, transactional/non-transactional. One known finding (non-atomic node pipelines) is listed in known_findings.json.",
+             "blocking/pipelined, transactional/non-transactional; slot-table refresh released between two Puts of one batch; two connection-fault schedules (reset mid-batch, connection lost before the first reply). One known finding (non-atomic node pipelines) is listed in known_findings.json.",
         design="DESIGN.md §3 C19", note="the double enforces 'executed by the owner'; slots from internal/ref.HashSlot; " + TRUST),
     "C05": dict(level="exploration", engine="chanmodel",
         technique="runtime monitor at the Channel boundary of both cache backends against a byte-by-offset model (PRF bytes identify their origin); sequential generated op histories + concurrent writer/readers/collector/pollers under the race detector with interval-bound checks",
@@ -66,7 +66,7 @@ CHECKS = {
         design="DESIGN.md §3 C05", note="workloads stay inside the call protocol RedisInput uses; liveness is judged only by logical quiescence (ended reader / starved-by-collector), stalls are inconclusive"),
     "C13": dict(level="exploration", engine="fakeredis propagation",
         technique="two site doubles that propagate what a master would (rewrites, no-op omission, MULTI/EXEC) closed into a loop through two real bisync RedisOutputs; origin-tagged client writes; echo / exactly-once / look-alike / ping-pong oracles decided at two-phase sentinels",
-        text="Replay modes sync/pipeline/parallel, filter classes incl. the documented prefix whitelist, snapshot and incremental phases, late reverse link, replication-lag windows producing shrunk mirrored transactions.",
+        text="Replay modes sync/pipeline/parallel, five filter classes incl. the documented prefix whitelist, snapshot and incremental phases, late reverse link, replication-lag windows producing shrunk mirrored transactions, Redis 7 SELECT-inside-MULTI propagation with clients in databases 0-3, link restarts (orderly / lost EXEC reply) through the real start-up path, reference filter projection with byte-identical delivery.",
         design="DESIGN.md §3 C13", note="internal/fakeredis role_propagate models a master's propagation (Redis 6.2/7.2 single-command transaction rule); both sites standalone; " + TRUST),
     "C14": dict(level="fault_enumeration", engine="bisweep",
         technique="request-prefix crash sweep + clean-stop schedule of bisync incremental replay (all three modes) with restart chains through the real start-up bookkeeping; oracles over unit table, frontier/latest/journal keys and StartPoint of successive starts; exhaustive RebuildBisyncFrontier subset check",
@@ -107,7 +107,7 @@ CHECKS = {
     "C15": dict(level="exploration", engine="leasestore+minilua+porcupine",
         technique="recorded call/return histories of Campaign/Renew/Resign/Leader checked with porcupine against a sequential lease model + belief-interval overlap monitor on a virtual clock",
         text="2-6 contenders with own connections against a lease-store double that executes the tool's Lua scripts (interpreter), virtual clock "
-             "advanced only at quiescent points, reply loss and connection resets; porcupine linearizability per burst and whole-run invariants.",
+             "advanced only at quiescent points, reply loss and connection resets; porcupine linearizability per burst and whole-run invariants. Also: one request of a Resign delivered late across clock steps, concurrent calls of the same instance on a sibling shard over the shared lease client, calls with a deadline whose reply arrives after it.",
         design="DESIGN.md §3 C15", note="internal/leasestore + internal/minilua execute the scripts the tool sends; Redis expiry rule now > expireAt"),
     "C18": dict(level="exploration", engine="fakeredis cluster role",
         technique="runtime monitor over the cluster-wide request log of a 3-4 node cluster double driven by the real bisync RedisOutput (snapshot + stream, all replay modes); every MULTI block reconstructed per node/connection and judged by independent HASH_SLOT and key-position tables",
